@@ -244,6 +244,15 @@ func (c *Ctx) ruleThreeWaySelect(rr *RuleRep, rSucc *RuleRep, sites []*reqSite) 
 									return vs[0]
 								}
 							}
+							// a named result kept in memory (the function has a defer): the one assignment that reaches `at` on
+							// the paths through this case
+							if ld, ok := c.Resolve(v).(*ssa.UnOp); ok && ld.Op == token.MUL {
+								if cell, ok := ld.X.(*ssa.Alloc); ok && cell.Parent() == s.F {
+									if val := c.cellValueAlong(s.F, edge, at, cell); val != nil {
+										return val
+									}
+								}
+							}
 							return v
 						}
 						reach := ReachableViaEdge(s.F, edge, s.Q)
@@ -461,6 +470,9 @@ func (c *Ctx) ruleRetryableFailures(rr *RuleRep, sites []*reqSite) []handleUse {
 				if isNilConst(rv) {
 					continue
 				}
+				if lf.Pred != nil && len(lf.Pred.Instrs) > 0 && !reach[lf.Pred.Instrs[len(lf.Pred.Instrs)-1]] {
+					continue // assigned on a way this QoS level does not take (`if qos > QoS0 {…} else { result = wrapError(…) }`)
+				}
 				if lf.Pred != nil && len(lf.Pred.Instrs) > 0 {
 					nilHere := false
 					for _, e := range nilEdges(s.F, rv) {
@@ -484,6 +496,32 @@ func (c *Ctx) ruleRetryableFailures(rr *RuleRep, sites []*reqSite) []handleUse {
 				switch {
 				case call != nil && isWrap && wi.handle >= 0 && len(call.Call.Args) > wi.handle:
 					h, mc := c.closureOf(call.Call.Args[wi.handle])
+					if hphi, isPhi := c.Resolve(call.Call.Args[wi.handle]).(*ssa.Phi); h == nil && isPhi && hphi.Parent() == s.F {
+						// the handle chosen per stage and handed to one wrap call below the stages: each closure that can arrive
+						// at this level is a handle of this site
+						okAll, n := true, 0
+						for _, hl := range phiLeaves(hphi, map[ssa.Value]bool{}) {
+							if hl.Pred != nil && len(hl.Pred.Instrs) > 0 && !reach[hl.Pred.Instrs[len(hl.Pred.Instrs)-1]] {
+								continue
+							}
+							if isNilConst(c.Resolve(hl.V)) {
+								continue // no handle on this way: the wrap call is not reached with it (tested by the caller of the wrap)
+							}
+							h2, mc2 := c.closureOf(hl.V)
+							if h2 == nil {
+								okAll = false
+								continue
+							}
+							n++
+							uses = append(uses, handleUse{Site: s, Call: call, Ret: ret, Handle: h2, MC: mc2})
+						}
+						if okAll && n > 0 {
+							if rr != nil {
+								rr.OK(key, ret.Pos(), "failure after registration returns wrapErrorWithRetry(cause, <the stage's handle>): %d closures", n)
+							}
+							continue
+						}
+					}
 					if h == nil {
 						if rr != nil {
 							rr.Undecided(key, ret.Pos(), "retry handle operand %s does not resolve to a closure", call.Call.Args[wi.handle].Name())
@@ -942,4 +980,45 @@ func (c *Ctx) sameRequestObject(site, msite *reqSite, recv ssa.Value) bool {
 		return false
 	}
 	return len(msite.F.Params) > 0 && fieldOfObj(msite.Msg, ssa.Value(msite.F.Params[0]))
+}
+
+// cellValueAlong: the value the local variable `cell` holds at instruction `at` on the paths from the function's entry that
+// take edge e — the one store, made after the edge, that reaches `at` with no other store to the variable in between — or
+// nil when there is no single such store (or a path reaches `at` without storing after the edge).
+func (c *Ctx) cellValueAlong(f *ssa.Function, e ifEdge, at ssa.Instruction, cell *ssa.Alloc) ssa.Value {
+	selfStore := func(st *ssa.Store) bool {
+		// `return x, err` with named results kept in memory stores err back into itself before the deferred calls run
+		ld, ok := st.Val.(*ssa.UnOp)
+		return ok && ld.Op == token.MUL && ld.X == ssa.Value(cell)
+	}
+	isStore := func(in ssa.Instruction) bool {
+		st, ok := in.(*ssa.Store)
+		return ok && st.Addr == ssa.Value(cell) && !selfStore(st)
+	}
+	for _, st := range c.cellStores[cell] {
+		if st.Addr != ssa.Value(cell) || st.Parent() != f {
+			return nil // written through an alias or from a closure
+		}
+	}
+	if _, bare := canReachFrom(f, nil, nil, -1, func(in ssa.Instruction) bool { return in == at }, PathQ{MustEdge: &e, BlockInstr: isStore}); bare {
+		return nil
+	}
+	region := ReachableViaEdge(f, e, PathQ{})
+	var found *ssa.Store
+	for _, st := range c.cellStores[cell] {
+		if !region[st] || selfStore(st) {
+			continue
+		}
+		if _, reaches := CanReach(f, st, func(in ssa.Instruction) bool { return in == at }, PathQ{BlockInstr: isStore}); !reaches {
+			continue
+		}
+		if found != nil && found != st {
+			return nil
+		}
+		found = st
+	}
+	if found == nil {
+		return nil
+	}
+	return found.Val
 }
